@@ -17,6 +17,7 @@ def handle : Handler
   | "ops", [] => pure (",".intercalate ((Op.all.filter fun o => !o.arbitrated).map Op.name))
   | "arbitrated-ops", [] => pure (",".intercalate ((Op.all.filter Op.arbitrated).map Op.name))
   -- `count <op> <doc>`: number of sites; `variant <op> <k> <doc>`: the document corrupted at site k with the model's verdict
+  | "sweep-widths", [] => pure (",".intercalate sweepWidths)
   | "count", [op, doc] => do
     let op ← Op.ofName op
     let s ← strArg doc
